@@ -12,6 +12,7 @@
 
 mod ctx;
 mod fibexgen;
+mod filtergen;
 mod gen_msg;
 mod inputs;
 mod iosched;
